@@ -6,6 +6,13 @@ use super::*;
 use crate::verif_common::stdlite;
 use crate::verif_common::{any_utf8, as_str};
 
+/// `String::from_utf8_lossy` is only reached by the sanitiser if it broke UTF-8 validity (which
+/// would also change the byte length): reaching it is a violation.
+fn lossy_unreachable(_v: &[u8]) -> std::borrow::Cow<'_, str> {
+    assert!(false, "sanitiser produced invalid UTF-8 (lossy fallback reached)");
+    std::borrow::Cow::Borrowed("")
+}
+
 /// Reference predicate, written independently of `is_terminal_snippet_clean`:
 /// no C0 control other than \n and \t, no DEL, no C1 control (U+0080..U+009F = C2 80..C2 9F).
 fn ref_clean(b: &[u8]) -> bool {
@@ -70,6 +77,7 @@ fn sanitize_n<const N: usize>() {
 #[kani::proof]
 #[kani::unwind(7)]
 #[kani::stub(core::str::validations::run_utf8_validation, stdlite::run_utf8_validation)]
+#[kani::stub(alloc::string::String::from_utf8_lossy, lossy_unreachable)]
 fn c17_sanitize_4() {
     sanitize_n::<4>()
 }
@@ -77,6 +85,7 @@ fn c17_sanitize_4() {
 #[kani::proof]
 #[kani::unwind(9)]
 #[kani::stub(core::str::validations::run_utf8_validation, stdlite::run_utf8_validation)]
+#[kani::stub(alloc::string::String::from_utf8_lossy, lossy_unreachable)]
 fn c17_sanitize_6() {
     sanitize_n::<6>()
 }
@@ -200,6 +209,13 @@ fn c17_coords_3() {
     coords_n::<3>()
 }
 
+#[kani::proof]
+#[kani::unwind(5)]
+#[kani::stub(core::str::validations::run_utf8_validation, stdlite::run_utf8_validation)]
+fn c17_coords_2() {
+    coords_n::<2>()
+}
+
 // ------------------------------------------------------------------------------------------
 // crop_window_text: the routine both renderers use. For every short window text, error position
 // and radius: no panic, output is terminal-clean, the rebased span is in range, ordered, on a
@@ -277,8 +293,20 @@ fn crop_window_n<const N: usize>() {
 #[kani::stub(core::str::count::count_chars, stdlite::count_chars)]
 #[kani::stub(core::slice::memchr::memchr, stdlite::memchr)]
 #[kani::stub(core::slice::memchr::memrchr, stdlite::memrchr)]
+#[kani::stub(alloc::string::String::from_utf8_lossy, lossy_unreachable)]
 fn c17_crop_window_3() {
     crop_window_n::<3>()
+}
+
+#[kani::proof]
+#[kani::unwind(6)]
+#[kani::stub(core::str::validations::run_utf8_validation, stdlite::run_utf8_validation)]
+#[kani::stub(core::str::count::count_chars, stdlite::count_chars)]
+#[kani::stub(core::slice::memchr::memchr, stdlite::memchr)]
+#[kani::stub(core::slice::memchr::memrchr, stdlite::memrchr)]
+#[kani::stub(alloc::string::String::from_utf8_lossy, lossy_unreachable)]
+fn c17_crop_window_2() {
+    crop_window_n::<2>()
 }
 
 #[kani::proof]
@@ -287,6 +315,7 @@ fn c17_crop_window_3() {
 #[kani::stub(core::str::count::count_chars, stdlite::count_chars)]
 #[kani::stub(core::slice::memchr::memchr, stdlite::memchr)]
 #[kani::stub(core::slice::memchr::memrchr, stdlite::memrchr)]
+#[kani::stub(alloc::string::String::from_utf8_lossy, lossy_unreachable)]
 fn c17_crop_window_4() {
     crop_window_n::<4>()
 }
@@ -340,6 +369,27 @@ fn source_window_n<const N: usize>() {
 fn c17_source_window_4() {
     source_window_n::<4>()
 }
+
+#[kani::proof]
+#[kani::unwind(6)]
+#[kani::stub(core::str::validations::run_utf8_validation, stdlite::run_utf8_validation)]
+#[kani::stub(core::str::count::count_chars, stdlite::count_chars)]
+#[kani::stub(core::slice::memchr::memchr, stdlite::memchr)]
+#[kani::stub(core::slice::memchr::memrchr, stdlite::memrchr)]
+fn c17_source_window_2() {
+    source_window_n::<2>()
+}
+
+#[kani::proof]
+#[kani::unwind(7)]
+#[kani::stub(core::str::validations::run_utf8_validation, stdlite::run_utf8_validation)]
+#[kani::stub(core::str::count::count_chars, stdlite::count_chars)]
+#[kani::stub(core::slice::memchr::memchr, stdlite::memchr)]
+#[kani::stub(core::slice::memchr::memrchr, stdlite::memrchr)]
+fn c17_source_window_3() {
+    source_window_n::<3>()
+}
+
 
 // concrete-playback slot: bin/check writes the solver counterexample here as a unit test for native replay
 include!("/verif/.build/playback/snippet_pb.rs");
